@@ -21,3 +21,10 @@ for id in "$@"; do
   echo "$id exit=$code $sigs"
   if [ "${SENS_VERBOSE:-0}" = 1 ]; then echo "$out" | cut -c1-400 | tail -8; fi
 done
+# SENS_OWN=<Cxx> SENS_OWN_SEEDS="2 3": the change's own check again under other PRNG seeds
+if [ -n "${SENS_OWN:-}" ]; then
+  for s in ${SENS_OWN_SEEDS:-2 3}; do
+    out=$(cd "$VERIF" && VERIF_SEED=$s VERIF_NO_EVIDENCE=1 ./check "$SENS_OWN" quick 2>&1); code=$?
+    echo "$SENS_OWN@seed=$s exit=$code"
+  done
+fi
